@@ -1236,11 +1236,13 @@ class Context:
         vm.globals = self._globals
 
         # Store current VM for timeout checking in RegExp constructor
+        # (restored afterwards: eval() may be re-entered from a host function)
+        previous_vm = self._current_vm
         self._current_vm = vm
         try:
             result = vm.run(compiled)
         finally:
-            self._current_vm = None
+            self._current_vm = previous_vm
 
         return self._to_python(result)
 
